@@ -661,7 +661,14 @@ package nfa
 //@   opt safety=off
 //@   opt frame=off
 //@   requires c != nil && c.builder != nil
+//@   opt timeout_factor=3
+//@   requires len(ranges) % 2 == 0 && (forall j :: 0 <= j && j + 1 < len(ranges) && j % 2 == 0 ==> 0 <= ranges[j] && ranges[j] <= ranges[j+1] && ranges[j+1] <= 0x10FFFF)
 //@   modifies c.builder.states, c.builder.states[*], c.builder.byteClassSet.*
+//@   loop 1: invariant 0 <= i && i % 2 == 0
+//@   loop 1: invariant forall k :: 0 <= k && k < len(nonASCIIRanges) ==> 0x80 <= nonASCIIRanges[k][0] && nonASCIIRanges[k][0] <= nonASCIIRanges[k][1] && nonASCIIRanges[k][1] <= 0x10FFFF
+//@   loop 2: invariant forall k :: 0 <= k && k < len(nonASCIIRanges) ==> 0x80 <= nonASCIIRanges[k][0] && nonASCIIRanges[k][0] <= nonASCIIRanges[k][1] && nonASCIIRanges[k][1] <= 0x10FFFF
+//@   loop 3: invariant forall k :: 0 <= k && k < len(nonASCIIRanges) ==> 0x80 <= nonASCIIRanges[k][0] && nonASCIIRanges[k][0] <= nonASCIIRanges[k][1] && nonASCIIRanges[k][1] <= 0x10FFFF
+//@   after call compileUTF8Range: 0x80 <= lastarg1 && lastarg1 <= lastarg2 && lastarg2 <= 0x10FFFF
 //@   after call buildUTF8NonASCIIBranches: len(nonASCIIRanges) == 1 && nonASCIIRanges[0][0] <= 0x80 && nonASCIIRanges[0][1] >= 0x10FFFF
 
 // ---- character-class repetition searcher (C19): closed form = runs of table bytes ----
